@@ -543,10 +543,12 @@ func (pf Producer[T]) GenerateParallel(
 
 					// abort: stop the other workers as
 					// well, unless the generator is just
-					// done. ReadAll turns the io.EOF
-					// below into nil, so the observer of
-					// the worker never sees it.
-					ft.WhenCall(!errors.Is(err, io.EOF), cancel)
+					// done (a returned io.EOF - not a
+					// recovered panic whose value happens
+					// to be or wrap io.EOF). ReadAll turns
+					// the io.EOF below into nil, so the
+					// observer of the worker never sees it.
+					ft.WhenCall(!errors.Is(err, io.EOF) || errors.Is(err, ErrRecoveredPanic), cancel)
 					return zero, io.EOF
 				}
 				return value, nil
